@@ -3,6 +3,7 @@ package main
 import (
 	"go/token"
 	"go/types"
+	"strings"
 
 	"golang.org/x/tools/go/ssa"
 )
@@ -605,4 +606,148 @@ func runStampedReplyNotShared(c *Ctx) {
 		}
 	}
 	c.Anchor("C09.R7", "call sites handing a reply to an id-stamping function", n >= 3)
+}
+
+func init() {
+	r4doc("C10", "C10.R6", "K1: server-side Subscribe writes the subscribe push before the subscription becomes visible to pushes")
+	round3Hooks["C10"] = append(round3Hooks["C10"], runServerSidePushBeforeCommit)
+}
+
+// runServerSidePushBeforeCommit (C10.R6): the gates of the publication / join / leave pushes only test the
+// subscribed flag of Client.channels[ch]. The client-side path therefore writes the subscribe reply first
+// and commits afterwards; connect-time subscriptions write the connect reply before the finalize stores.
+// Client.Subscribe (server-side) must keep the same order: its FrameTypePushSubscribe write is not
+// reachable after commitSubscription. (Positioned subscriptions are additionally protected by the
+// subscribe-time buffer; history-less publications and join/leave pushes are not.)
+func runServerSidePushBeforeCommit(c *Ctx) {
+	w := c.W
+	fn := w.Func("centrifuge", "(*Client).Subscribe")
+	if !c.Anchor("C10.R6", "(*Client).Subscribe", fn) {
+		return
+	}
+	ft := w.frameType("FrameTypePushSubscribe")
+	commits := CallsIn(fn, false, w.calleeIs("Client.commitSubscription"))
+	var writes []ssa.CallInstruction
+	for _, ci := range CallsIn(fn, false, w.calleeIs("Client.writeEncodedPushData")) {
+		for _, a := range ci.Common().Args {
+			if k, ok := constIntOf(a); ok && k == ft && ft >= 0 {
+				if _, isNamed := a.Type().(*types.Named); isNamed {
+					writes = append(writes, ci)
+				}
+			}
+		}
+	}
+	if !c.Anchor("C10.R6", "commit and subscribe-push write in Client.Subscribe", len(commits) > 0 && len(writes) > 0) {
+		return
+	}
+	bad := false
+	for _, cm := range commits {
+		for _, wr := range writes {
+			if Reaches(cm, wr) {
+				bad = true
+			}
+		}
+	}
+	c.CheckAt("C10.R6", "(*centrifuge.Client).Subscribe: the subscribe push is written before the subscription is committed", w.Pos(fn.Pos()), !bad,
+		"between commitSubscription and the write of the subscribe push the subscribed flag is already set: a history-less publication (or a join/leave push) broadcast in that window is enqueued ahead of the subscribe push")
+}
+
+func init() {
+	r4doc("C22", "C22.R5", "K1: every successful return of MapStreamRead that carries a broker read has passed the trimmed-stream tests")
+	round3Hooks["C22"] = append(round3Hooks["C22"], runStreamReadAlwaysChecked)
+	r4doc("C24", "C24.R8", "inverse functions: the expiry tracking key is split at its first separator only")
+	round3Hooks["C24"] = append(round3Hooks["C24"], runChKeySplitAtFirst)
+}
+
+// runStreamReadAlwaysChecked (C22.R5): Node.MapStreamRead is the one place where a trimmed or expired
+// stream becomes ErrorUnrecoverablePosition (C22.R2). Both ways of reading — directly and through the
+// single-flight group — must run into those tests: from every broker read (MapBroker.ReadStream or the
+// singleflight Do that wraps it), every path to a return, other than the one taken on a read error, passes
+// the start of the test chain (the read of Filter.Reverse).
+func runStreamReadAlwaysChecked(c *Ctx) {
+	w := c.W
+	fn := w.Func("centrifuge", "(*Node).MapStreamRead")
+	if !c.Anchor("C22.R5", "(*Node).MapStreamRead", fn) {
+		return
+	}
+	isRead := func(ci ssa.CallInstruction) bool {
+		cc := ci.Common()
+		if cc.IsInvoke() && cc.Method.Name() == "ReadStream" {
+			return true
+		}
+		f := w.Callee(ci)
+		return f != nil && f.Name() == "Do" && f.Pkg != nil && strings.HasSuffix(f.Pkg.Pkg.Path(), "singleflight")
+	}
+	startsTests := func(in ssa.Instruction) bool {
+		switch x := in.(type) {
+		case *ssa.UnOp:
+			if fa, ok := x.X.(*ssa.FieldAddr); ok && x.Op == token.MUL {
+				_, f, ok := FieldOf(fa)
+				return ok && f == "Reverse"
+			}
+		case *ssa.Field:
+			_, f, ok := FieldOf(x)
+			return ok && f == "Reverse"
+		}
+		return false
+	}
+	n := 0
+	for _, rd := range CallsIn(fn, false, isRead) {
+		n++
+		bad := PathQ{
+			Stop: startsTests,
+			Goal: isReturn,
+			EdgeCond: func(cond ssa.Value, outcome bool) bool {
+				// the read failed: the error is returned as it is
+				if b, ok := cond.(*ssa.BinOp); ok && (b.Op == token.NEQ || b.Op == token.EQL) && (isNilConst(b.X) || isNilConst(b.Y)) {
+					other := b.X
+					if isNilConst(b.X) {
+						other = b.Y
+					}
+					if types.Identical(other.Type(), types.Universe.Lookup("error").Type()) {
+						isErr := (b.Op == token.NEQ) == outcome
+						return !isErr
+					}
+				}
+				return true
+			},
+		}.From(rd)
+		c.Check("C22.R5", rd, "a successful broker read reaches the trimmed-stream tests before it is returned", bad == nil,
+			"a read path that returns the broker's result directly (the single-flight branch) never reports a trimmed or expired stream: the client is told Recovered=true although changes after its position were lost"+instrAt(w, bad))
+	}
+	c.Anchor("C22.R5", "broker reads in MapStreamRead", n >= 2)
+}
+
+// runChKeySplitAtFirst (C24.R8): the expiry heap tracks a key as channel + "\x00" + key. A map key may
+// itself contain the separator byte, so the inverse must split at the *first* separator (as the builder's
+// channel part cannot contain it). A split that requires exactly two parts, or searches from the end,
+// fails to parse such keys: phase 1 of the sweep drops their tracking entry and the key never expires.
+// Only the recognisably wrong forms are reported (strings.Split, strings.Fields, LastIndex*).
+func runChKeySplitAtFirst(c *Ctx) {
+	w := c.W
+	fn := w.Func("centrifuge", "(*mapHub).parseChKey")
+	if !c.Anchor("C24.R8", "(*mapHub).parseChKey", fn) {
+		return
+	}
+	bad := ""
+	EachInstr(fn, func(in ssa.Instruction) {
+		call, ok := in.(*ssa.Call)
+		if !ok {
+			return
+		}
+		cal := call.Call.StaticCallee()
+		if cal == nil || cal.Pkg == nil || cal.Pkg.Pkg.Path() != "strings" {
+			return
+		}
+		switch cal.Name() {
+		case "Split", "Fields", "LastIndex", "LastIndexByte", "LastIndexAny", "SplitAfter":
+			bad = "strings." + cal.Name()
+		case "SplitN", "SplitAfterN":
+			if k, ok := constIntOf(call.Call.Args[2]); !ok || k != 2 {
+				bad = "strings." + cal.Name() + " with n != 2"
+			}
+		}
+	})
+	c.CheckAt("C24.R8", "(*centrifuge.mapHub).parseChKey: splits at the first separator", w.Pos(fn.Pos()), bad == "",
+		"a key that contains the separator byte no longer parses ("+bad+"): the sweep treats its tracking entry as malformed and drops it, the heap item is already popped, and the key stays in state for ever without a removal")
 }
